@@ -230,7 +230,8 @@ class Hypervolume(Indicator):
         if len(feasible) == 0:
             return 0.0
 
-        for s in feasible:
+        # invert each solution object once, even if it is listed more than once
+        for s in {id(s): s for s in feasible}.values():
             self.invert(s)
 
         return self.calc_internal(feasible, len(feasible), set[0].problem.nobjs)
